@@ -14,6 +14,11 @@ pub fn column_to_number(column: &str) -> Result<i32, String> {
         return Err("Column identifier must be ASCII.".to_string());
     }
 
+    if column.len() > 3 {
+        // last column is XFD; also keeps the arithmetic below within i32
+        return Err("Column is not valid.".to_string());
+    }
+
     let mut column_number = 0;
     for character in column.chars() {
         if !character.is_ascii_uppercase() {
